@@ -377,6 +377,39 @@ theorem takePublicKey_sub (b : Bytes) (a : KeyAlg) (u : Nat) (bits rest : Bytes)
       | (cases h; done)
       | (injection h with h; injection h with _ h; injection h with _ h; injection h with _ e; subst e; exact hs)
 
+theorem finishTbs_canon (serial : Bytes) (ip op : Bool) (issuer subject : Bytes) (nb na : X509.Civil)
+    (ka : KeyAlg) (ku : Nat) (kb raw sig : Bytes) (e : Exts) (d : Decoded) (he : ExtsCanon e)
+    (h : finishTbs serial ip op issuer subject nb na ka ku kb raw sig e = some d) :
+    ClaimCanon IpDer.maxAddr d.v4 ∧ ClaimCanon IpDer.maxAddr d.v6 ∧ ClaimCanon AsDer.maxAs d.asn := by
+  unfold finishTbs at h
+  repeat' (split at h)
+  all_goals first
+    | (cases h; done)
+    | skip
+  injection h with h; subst h
+  refine ⟨?_, ?_, ?_⟩
+  · show ClaimCanon IpDer.maxAddr ((e.ip.getD (none, none)).1.getD Claim.missing)
+    cases hip : e.ip with
+    | none => trivial
+    | some f =>
+      have := (he.1 f hip).1
+      cases h1 : f.1 with
+      | none => simp [h1]; trivial
+      | some cl => simp only [Option.getD, h1]; rw [h1] at this; exact this
+  · show ClaimCanon IpDer.maxAddr ((e.ip.getD (none, none)).2.getD Claim.missing)
+    cases hip : e.ip with
+    | none => trivial
+    | some f =>
+      have := (he.1 f hip).2
+      cases h1 : f.2 with
+      | none => simp [h1]; trivial
+      | some cl => simp only [Option.getD, h1]; rw [h1] at this; exact this
+  · show ClaimCanon AsDer.maxAs (e.asn.getD Claim.missing)
+    have := he.2
+    cases h1 : e.asn with
+    | none => trivial
+    | some cl => simp only [Option.getD]; rw [h1] at this; exact this
+
 /-- the claims of a decoded TBS are canonical chains -/
 theorem decodeTbs_canon (raw : Bytes) (op : Bool) (sig : Bytes) (d : Decoded) (hb : AllBytes raw)
     (h : decodeTbs raw op sig = some d) :
@@ -458,38 +491,7 @@ theorem decodeTbs_canon (raw : Bytes) (op : Bool) (sig : Bytes) (d : Decoded) (h
                                   have he := foldCons_inv ExtsCanon tagSeq extension extension_canon
                                     xs.length xs {} e b9 extsCanon_default hf
                                   simp only [hf] at h
-                                  repeat' (split at h)
-                                  all_goals first
-                                    | (cases h; done)
-                                    | skip
-                                  injection h with h; subst h
-                                  refine ⟨?_, ?_, ?_⟩
-                                  · show ClaimCanon IpDer.maxAddr ((e.ip.getD (none, none)).1.getD Claim.missing)
-                                    cases hip : e.ip with
-                                    | none => trivial
-                                    | some f =>
-                                      have := (he.1 f hip).1
-                                      cases h1 : f.1 with
-                                      | none => simp [h1]; trivial
-                                      | some cl => simp only [Option.getD, h1]; rw [h1] at this; exact this
-                                  · show ClaimCanon IpDer.maxAddr ((e.ip.getD (none, none)).2.getD Claim.missing)
-                                    cases hip : e.ip with
-                                    | none => trivial
-                                    | some f =>
-                                      have := (he.1 f hip).2
-                                      cases h1 : f.2 with
-                                      | none => simp [h1]; trivial
-                                      | some cl => simp only [Option.getD, h1]; rw [h1] at this; exact this
-                                  · show ClaimCanon AsDer.maxAs (e.asn.getD Claim.missing)
-                                    have := he.2
-                                    cases h1 : e.asn with
-                                    | none => trivial
-                                    | some cl => simp only [Option.getD]; rw [h1] at this; exact this
-
-end Rpki.CertDer
-
-namespace Rpki.CertDer
-open Rpki.Der Rpki.Chain
+                                  exact finishTbs_canon _ _ _ _ _ _ _ _ _ _ _ _ e d he h
 
 theorem takeCert_canon (b : Bytes) (d : Decoded) (rest : Bytes) (hb : AllBytes b) (h : takeCert b = some (d, rest)) :
     ClaimCanon IpDer.maxAddr d.v4 ∧ ClaimCanon IpDer.maxAddr d.v6 ∧ ClaimCanon AsDer.maxAs d.asn := by
